@@ -20,7 +20,7 @@ func Harness_C07_mark() {
 	setAt := hc.expiredAt - period
 	verifAssert("C07.mark.status", hc.status == StatusHitForPass)
 	verifAssert("C07.mark.period", setAt >= before && setAt <= after)
-	verifAssert("C07.mark.waiters-drained", hc.chanList == nil && !verifLockHeld(hc.mu))
+	verifAssert("C07.mark.waiters-drained", len(hc.chanList) == 0 && !verifLockHeld(hc.mu))
 	verifReach("C07.mark.end")
 }
 
